@@ -13,6 +13,10 @@ CLAIMED = {
           "Seeded programs (closure scopes nested to depth 6, set_default_local_recorder guards dropped in any order or leaked, panics unwinding through scopes, a global recorder appearing at a random point, 23 call sites covering every macro arm) run on 1-3 threads interleaved at operation granularity; after every emission exactly one recorder call must have happened, on the recorder the specification interpreter names (innermost live scope of that thread, else global, else nobody), with the name, labels, level, target, module path, unit and description the call site spells. A second interpreter models the save-and-restore implementation so that the two known unsound histories (non-LIFO guard drop, mem::forget) are attributed by structure and everything else is a new violation.",
           "Recorder doubles are kept alive beyond their logical scope (a dispatch to an ended scope is observed, not undefined behaviour), so real use-after-free is out of reach; the global recorder is a router installed once per worker process (racing installs are C02's scenario).",
           "DESIGN.md 4/C01"),
+  "C14": ("seeded interpretation under Miri (-Zmiri-many-seeds): seeded programs of construct/clone/convert/hand-over/drop over SharedString and Key labels on two threads, Miri as memory oracle",
+          "Each execution is one seeded program (6-19 steps of construct from static/owned-with-any-capacity/Arc/std-Cow, clone, deref/compare/hash, into_owned, Key::into_parts, with_extra_labels, hand-over to another thread that checks, clones and drops, drop) under one Miri interpreter seed: a seeded scheduler pre-empting at basic-block granularity with weak-memory emulation, so one (program, seed) pair is one repeatable execution. The program checks content against a model and Arc strong counts after every step; Miri reports use-after-free, double free, layout-mismatched deallocation, leaks and data races. Runs the shipped token stream (guard off) through a shadow manifest.",
+          "Miri explores the executions it is given, not all of them; the schedule dimension of this property is thin (Arc reference counting is std's); the Cow->std::borrow::Cow conversion does not exist for str/slices and is not exercised.",
+          "DESIGN.md 4/C14, 3.7"),
   "C05": ("deterministic simulation (dsim): seeded schedules at atomic-operation granularity over AtomicBucket push/data_with/is_empty/clear_with incl. block hand-over, real crossbeam-epoch",
           "Seeded search over interleavings of 2-4 threads mixing push, snapshot reads, is_empty and clears on one bucket pre-filled next to the 64-slot block boundary; every operation on write/read/tail/next and both quiescence loops is a scheduling point. Oracle over the recorded history: multiset conservation (each pushed tag delivered to exactly one clear or left for the final drain), snapshot completeness window, no fabricated/duplicate/torn value, per-block order, no double drop of values with destructors. Three genuine defects found this way were repaired (known_findings.json).",
           "Sequentially consistent interleavings only; internals of crossbeam-epoch are single steps; leak of values with destructors is not asserted (epoch reclamation is deferred); plans using the callback-less clear() are checked for fabrication/duplication/order only.",
@@ -87,7 +91,7 @@ for pid in props:
             "thorough_cmd": f"./check {pid} --tier thorough",
             "evidence_file": f"/verif/evidence/{pid}.json",
             "replay_cmd_template": f"./check {pid} --replay {{path}}",
-            "engine": "dsim",
+            "engine": "miri" if pid == "C14" else "dsim",
             "level_claimed": {"category": "exploration", "text": text, "design_ref": ref},
             "level_note": note,
             "technique": tech,
@@ -99,7 +103,7 @@ for pid in props:
 
 m = {
   "version": 1,
-  "setup_cmd": "cd /verif/harness && CARGO_NET_OFFLINE=true cargo build --release --offline",
+  "setup_cmd": "cd /verif/harness && CARGO_NET_OFFLINE=true cargo build --release --offline && cd /verif/miri/c14 && CARGO_NET_OFFLINE=true MIRIFLAGS=-Zmiri-preemption-rate=0.1 cargo +nightly miri run --offline -- 0 0",
   "hooks": {
     "guard": "--cfg metrics_verif (rustc cfg flag, set through RUSTFLAGS in /verif/harness/.cargo/config.toml)",
     "enable": "RUSTFLAGS='--cfg metrics_verif' — the harness crate /verif/harness path-depends on the six /repo crates and builds them with the flag; no Cargo.toml of /repo changes",
@@ -108,7 +112,8 @@ m = {
     "add_only": True,
   },
   "engines": [
-    {"name": "dsim", "path": "/verif/dsim", "serves_properties": sorted(CLAIMED), "kind_free_text": "deterministic simulation with fault injection: real code on real OS threads, one baton, seeded scheduler (random/sticky/PCT/round-robin), virtual time, seeded fault streams, replay + minimisation"},
+    {"name": "miri", "path": "/verif/miri", "serves_properties": ["C14"], "kind_free_text": "Miri as a seeded interpreter: cargo +nightly miri run -Zmiri-many-seeds over shadow crates that build /repo source files with the guard off; replay = (program, interpreter seed, flags)"},
+    {"name": "dsim", "path": "/verif/dsim", "serves_properties": sorted(p for p in CLAIMED if p != "C14"), "kind_free_text": "deterministic simulation with fault injection: real code on real OS threads, one baton, seeded scheduler (random/sticky/PCT/round-robin), virtual time, seeded fault streams, replay + minimisation"},
   ],
   "checks": checks,
   "not_applicable": na,
